@@ -1250,8 +1250,14 @@ where
                     if offset_table.is_none() {
                         offset_table = Some(Vec::new())
                     }
+                    first = false;
                 }
-                LazyDataToken::ItemStart { len: _ } => { /* no-op */ }
+                LazyDataToken::ItemStart { len } => {
+                    // a zero-length fragment yields no item value token
+                    if !first && len == Length(0) {
+                        fragments.push(Vec::new());
+                    }
+                }
                 LazyDataToken::SequenceEnd => {
                     // end of pixel data
                     break;
